@@ -99,6 +99,9 @@ func New(env *hx.Env) *R {
 func (r *R) Module() string { return "coinswap" }
 
 // State is the canonical state projection carried by every observation line (hx.Stater).
+// GhostChance: now and then an operation is executed on a context that is thrown away (hx.Ghoster).
+func (r *R) GhostChance() (int, int) { return 1, 16 }
+
 func (r *R) State(ctx sdk.Context) string { return r.state(ctx) }
 
 var _ hx.Runner = (*R)(nil)
